@@ -44,7 +44,7 @@ def cases(tier, seed):
     chunk = 8
     for i in range(0, len(specs), chunk):
         out.append({'k': 'graphs', 'specs': specs[i:i + chunk]})
-    for kind in ('list', 'tuple', 'set', 'dict', 'obj', 'chain', 'string', 'manylocals'):
+    for kind in ('list', 'tuple', 'set', 'dict', 'obj', 'chain', 'string', 'manylocals', 'watch'):
         for lim in (0, 1, 2, 3, 10):
             for d in (-1, 0, 1):
                 if lim + d >= 0:
@@ -74,7 +74,7 @@ def limit_sets():
 
 def run_case(ctx, desc):
     if desc['k'] == 'one':
-        return check_one(ctx, desc['spec'], desc['limits'], desc, leaves=desc.get('leaves'))
+        return check_one(ctx, desc['spec'], desc['limits'], desc, leaves=desc.get('leaves'), watches=desc.get('watches'))
     if desc['k'] == 'param':
         return run_param(ctx, desc)
     lims = limit_sets()
@@ -117,6 +117,16 @@ def run_param(ctx, desc):
         spec = {'nodes': [['list', [['l', 's'], ['l', 'u'], ['l', 'w'], ['l', 'x']]]], 'locals': [['a', ['c', 0]], ['s', ['l', 's']], ['w', ['l', 'w']]]}
         for dl in (0, 1, 4, 5, 6):
             check_one(ctx, spec, dict(L, MAX_STRING_LENGTH=lim + dl), None, leaves=leaves, param=desc)
+    elif kind == 'watch':
+        # values that only a watch / log field brings into the snapshot count against the same limits
+        for i in range(max(size, 1)):
+            leaves['e%d' % i] = 3000 + i
+        spec = {'nodes': [['list', [['l', 'e%d' % i] for i in range(max(size, 1))]]], 'locals': [['a', ['c', 0]], ['z', ['l', 'int']]]}
+        fresh = '[[7000 + i, "w" * 30] for i in range(6)]'
+        for w in ([fresh], ['"q" * 50', fresh], [fresh, '{"k": [1, 2, 3, 4]}']):
+            check_one(ctx, spec, dict(L, MAX_VARIABLES=lim + 2), None, leaves=leaves, param=desc, watches=w)
+            check_one(ctx, spec, dict(L, MAX_STRING_LENGTH=lim, MAX_COLLECTION_SIZE=max(lim, 1)), None, leaves=leaves, param=desc, watches=w)
+            check_one(ctx, spec, dict(L, MAX_STRING_LENGTH=lim, MAX_COLLECTION_SIZE=max(lim, 1), log_msg='l {%s}' % w[0]), None, leaves=leaves, param=desc, watches=[])
     elif kind == 'manylocals':
         # `size` scalar locals + one big structure declared first / last: locals must not be crowded out
         names = ['v%d' % i for i in range(size)]
@@ -131,13 +141,13 @@ def run_param(ctx, desc):
                 check_one(ctx, sp, dict(L, MAX_VARIABLES=mv), None, leaves=leaves, param=desc)
 
 
-def check_one(ctx, spec, lim, case, leaves=None, param=None):
-    case = case or {'k': 'one', 'spec': spec, 'limits': lim, 'leaves': leaves}
+def check_one(ctx, spec, lim, case, leaves=None, param=None, watches=None):
+    case = case or {'k': 'one', 'spec': spec, 'limits': lim, 'leaves': leaves, 'watches': watches}
     try:
         objs, loc = graphs.build(spec, leaves)
     except graphs.Unbuildable:
         return
-    agent, run, info = snapref.take(loc, [lim])
+    agent, run, info = snapref.take(loc, [dict(lim, watches=watches)] if watches else [lim])
     ctx.case()
     M, D, C, S = lim['MAX_VARIABLES'], lim['MAX_VAR_DEPTH'], lim['MAX_COLLECTION_SIZE'], lim['MAX_STRING_LENGTH']
     kinds = '+'.join(sorted({k for k, _ in spec['nodes']}))
@@ -149,7 +159,8 @@ def check_one(ctx, spec, lim, case, leaves=None, param=None):
     cut = False
     # 1. variable budget
     if len(table) > M + 1:
-        ctx.violation('C05/max-variables-exceeded', f'limits {lim}: {len(table)} variables recorded for graph {spec}', case)
+        ctx.violation('C05/max-variables-exceeded' + ('/with-watches' if watches or lim.get('log_msg') else ''),
+                      f'limits {lim}: {len(table)} variables recorded for graph {spec} watches {watches}', case)
         return
     levels_uncapped = snapref.ref_levels(loc, None)
     levels = snapref.ref_levels(loc, C)
@@ -161,7 +172,11 @@ def check_one(ctx, spec, lim, case, leaves=None, param=None):
         ent = byid.get(var.hash)
         # 2. strings
         if len(var.value) > S:
-            ctx.violation('C05/max-string-length-exceeded', f'limits {lim}: value of length {len(var.value)} recorded ({var.type})', case)
+            ctx.violation('C05/max-string-length-exceeded' + ('' if ent is not None or not (watches or lim.get('log_msg')) else '/watch-result'),
+                          f'limits {lim}: value of length {len(var.value)} recorded ({var.type})', case)
+            return
+        if ent is None and var.type in ('list', 'tuple', 'set', 'frozenset') and len(var.children) > C:
+            ctx.violation(f'C05/max-collection-size-exceeded/{var.type}/watch-result', f'limits {lim}: {len(var.children)} children of a {var.type} brought in by a watch/log field', case)
             return
         if ent is not None:
             lvl, obj = ent
